@@ -141,10 +141,8 @@ for T_ in (2, 3, 4): huff_pi(T_, 'quick')
 for T_ in (5, 6): huff_pi(T_, 'thorough', timeout=3600)
 G('huff.ctor.T314', ['C15', 'C04'], 'huff', None, harness='h_huff_ctor', defines=['OP2_T=314'], reach=['normal exit'], loop_contracts=False,
   flags=['--unwind', '950', '--unwinding-assertions', '--max-field-sensitivity-array-size', '2000'], timeout=1800, no_standard_checks=True, what='constructor establishes WF for the 314-symbol tree the format uses (concrete execution inside CBMC; generated pointer checks off, WF of the result asserted)')
-G('huff.bounded314', ['C15', 'C04'], 'huff', None, harness='h_huff_bounded_from_initial', defines=['OP2_T=314', 'OP2_K=1'], reach=[], loop_contracts=False, tier='thorough',
-  flags=['--unwind', '950', '--unwinding-assertions', '--max-field-sensitivity-array-size', '2000'], timeout=3600, bounded='T=314, 1 update with a symbolic symbol from the initial tree', what='bounded stand-in for T=314')
 claim('C15', 'Inductive step proved from an ARBITRARY well-formed tree (so for all histories) for 2..4 symbols in the quick tier and 5..6 in the thorough tier: UpdateCodeCount preserves the representation invariant WF (full binary prefix code over exactly the symbol set, sibling property), its result equals an independent reference update (Okumura LZHUF), the encoder bit string drives the decoder walk to the symbol leaf, and an update beyond counter capacity or with an out-of-range symbol is refused leaving the tree unchanged. Leaf accessors (GetChildNode, IsLeaf, GetNodeData, Verify*) are proved by contract for any tree size. The constructor is proved to establish WF for T = 2..6 and for T = 314.',
-      'PI: the invariant step is proved per fixed symbol count T (loops fully unwound, unwinding assertions on); T = 314 inductive step is NOT decided (out of reach monolithically) - a bounded run (3 symbolic updates from the initial 314-symbol tree) stands in, labelled bounded. std::vector modelled as a view; allocation failure not modelled.')
+      'PI: the invariant step is proved per fixed symbol count T (loops fully unwound, unwinding assertions on); T = 314 inductive step is NOT decided (out of reach monolithically; a bounded stand-in - one symbolic update from the initial 314-symbol tree - did not finish within one hour on any back end and is not registered). std::vector modelled as a view; allocation failure not modelled.')
 
 # ---- U-BSR (C04: bit reader)
 for fn_, rc_ in (('ctor', ['normal exit', 'exceptional exit']), ('ReadNextBit', NOEXC), ('ReadNext8Bits', NOEXC), ('EndOfStream', NOEXC), ('GetBitReadPos', NOEXC)):
